@@ -276,6 +276,11 @@ func parseStackPCs(crash string) ([]uintptr, error) {
 			// different mappings of the text section.
 			pc, err := getPC(line)
 			if err != nil {
+				if strings.Contains(line, " pc=") {
+					// Not an inlined frame (those have no pc= field):
+					// dropping the frame would silently change the name.
+					return nil, fmt.Errorf("error extracting pc: %v", err)
+				}
 				// Inlined frame, perhaps; skip it.
 
 				// Done with this frame. Next line is a new frame.
